@@ -921,4 +921,235 @@ class SeqKind(Kind):
                 yield dict(case, steps=[dict(s, lay=None) if j == i else s for j, s in enumerate(steps)])
 
 
-KINDS = [HwKind(), MonoKind(), ValueKind(), DiscKind(), LayoutKind(), SeqKind()]
+# ================================================================================================================
+# (3) large group sums / count boundaries, long lanes.  Inputs are run-length encoded: 'runs' = [[value, repetitions], ...] is the
+#     logical row-major array; it is expanded by the harness for the code and by Coq (`expand`, repeat) for the specification.
+def _rle(flat):
+    runs = []
+    for v in flat:
+        if runs and _key(runs[-1][0]) == _key(v):
+            runs[-1][1] += 1
+        else:
+            runs.append([v, 1])
+    return runs
+
+
+def _unrle(runs):
+    return [v for v, n in runs for _ in range(n)]
+
+
+def _orient(rng, lanes, lane_axis):
+    """lanes: equal-length rows.  Returns (shape, axis, flat) with the lanes along `lane_axis` of a 1-D / 2-D array."""
+    L = len(lanes[0])
+    if lane_axis == 'flat' and len(lanes) == 1:
+        return [L], rng.choice([0, -1]), list(lanes[0])
+    if lane_axis == 0:
+        return [L, len(lanes)], 0, [lanes[c][j] for j in range(L) for c in range(len(lanes))]
+    return [len(lanes), L], rng.choice([1, -1]), [v for lane in lanes for v in lane]
+
+
+class HwLargeKind(Kind):
+    name = 'hw_large_groups'
+    header = HDR2
+    case_type = 'hw_rle_case'
+    check_fn = 'hw_rle_check'
+    explain_fn = 'hw_rle_expected'
+    shard = 12
+    rule = ('HammingWeight(nb_words = k) with k in 2..64 on every dtype and 255 / 256 / 257 on uint8, 1024 on uint64 / 2048 on uint32: rows of '
+            'all-ones words, all-ones with one word one bit lighter / one zero word, mostly-ones and random words, 1..3 groups plus a remainder, '
+            'so that group sums sit at, just below and above 255/256 (every dtype) and 65535/65536 (uint32, uint64), first and last axis, '
+            'C / Fortran / strided views; run-length encoded input expanded inside Coq; non-trivial = some expected group sum >= 255')
+
+    def _lane(self, rng, bits, k, pattern):
+        ones = (1 << bits) - 1
+        groups = rng.randint(1, 3) if k <= 64 else rng.randint(1, 2)
+        rem = rng.choice([0, 0, 1, k - 1])
+        lane = []
+        for g in range(groups):
+            if pattern == 'ones':
+                grp = [ones] * k
+            elif pattern == 'edge':      # group sums k*bits, k*bits - 1, (k-1)*bits, k*bits - bits + 1 ...
+                last = rng.choice([ones, ones >> 1, 0, 1, ones ^ 1, ones >> (bits // 2)])
+                grp = [ones] * (k - 1) + [last]
+                if rng.random() < 0.5:
+                    pos = rng.randrange(k)
+                    grp[pos], grp[-1] = grp[-1], grp[pos]
+            elif pattern == 'mostly':
+                grp = []
+                for _ in range(k):
+                    w = ones
+                    for _ in range(rng.randint(0, 2)):
+                        w &= ~(1 << rng.randrange(bits))
+                    grp.append(w)
+            else:
+                grp = [rng.getrandbits(bits) for _ in range(k)]
+            lane += grp
+        return lane + [rng.choice([ones, 0, rng.getrandbits(bits)]) for _ in range(rem)]
+
+    def gen(self, rng, tier):
+        quick = tier == 'quick'
+        DT = [('uint8', 8), ('uint16', 16), ('uint32', 32), ('uint64', 64)]
+        # deterministic boundary block: the lightest all-ones group of weight 256, one below, one above, for every dtype
+        for dt, bits in DT:
+            ones = (1 << bits) - 1
+            k = 256 // bits
+            yield {'dtype': dt, 'k': k, 'shape': [1, k], 'axis': -1, 'runs': [[ones, k]], 'lay': None}
+            yield {'dtype': dt, 'k': k, 'shape': [2, 2 * k], 'axis': 1, 'runs': [[ones, k - 1], [ones >> 1, 1], [ones, k], [ones, k - 1], [0, 1], [ones, k]], 'lay': None}
+            yield {'dtype': dt, 'k': k + 1, 'shape': [k + 1, 1], 'axis': 0, 'runs': [[ones, k], [1, 1]], 'lay': None}
+            yield {'dtype': dt, 'k': 64, 'shape': [130], 'axis': 0, 'runs': [[ones, 130]], 'lay': None}
+        for k in (255, 256, 257):
+            yield {'dtype': 'uint8', 'k': k, 'shape': [1, 2 * k + 1], 'axis': -1, 'runs': [[255, 2 * k + 1]], 'lay': None}
+            yield {'dtype': 'uint8', 'k': k, 'shape': [k, 2], 'axis': 0, 'runs': [[255, 2 * k - 2], [127, 1], [0, 1]], 'lay': None}
+        # 65535 / 65536 / beyond
+        for dt, bits, k in (('uint64', 64, 1024), ('uint32', 32, 2048)):
+            ones = (1 << bits) - 1
+            yield {'dtype': dt, 'k': k, 'shape': [k], 'axis': 0, 'runs': [[ones, k]], 'lay': None}
+            yield {'dtype': dt, 'k': k, 'shape': [1, k], 'axis': -1, 'runs': [[ones, k - 1], [ones >> 1, 1]], 'lay': None}
+        yield {'dtype': 'uint64', 'k': 1025, 'shape': [1025, 1], 'axis': 0, 'runs': [[(1 << 64) - 1, 1025]], 'lay': None}
+        if not quick:
+            yield {'dtype': 'uint16', 'k': 4096, 'shape': [4096], 'axis': 0, 'runs': [[65535, 4096]], 'lay': None}
+        # random structure
+        ks = [2, 3, 4, 7, 8, 15, 16, 17, 31, 32, 33, 48, 63, 64]
+        n = 0
+        for rep in range(1 if quick else 6):
+            for dt, bits in DT:
+                for k in ks + ([128, 255, 256, 257] if dt == 'uint8' else []):
+                    for pattern in ('ones', 'edge', 'mostly', 'random'):
+                        if quick and (n := n + 1) % 2 and k * bits < 240:     # quick: half of the groups that cannot reach 255
+                            continue
+                        nl = rng.choice([1, 1, 2])
+                        first = self._lane(rng, bits, k, pattern)
+                        lanes = [first] + [self._lane(rng, bits, k, rng.choice(['ones', 'edge', 'mostly', 'random']))[:len(first)] for _ in range(nl - 1)]
+                        lanes = [l + [0] * (len(first) - len(l)) for l in lanes]
+                        shape, axis, flat = _orient(rng, lanes, rng.choice(['flat', 0, 1]))
+                        lay = None
+                        if len(shape) == 2 and rng.random() < 0.3:
+                            lay = _rand_layout(rng, shape, rng.choice(['F', 'strided', 'neg', 'sliced']))
+                        yield {'dtype': dt, 'k': k, 'shape': shape, 'axis': axis, 'runs': _rle(flat), 'lay': lay}
+
+    def run(self, case):
+        import scared
+        vals = _unrle(case['runs'])
+        a = _build(vals, case['dtype'], case['shape'], case.get('lay'))
+        r = scared.HammingWeight(nb_words=case['k'], expected_dtype=case['dtype'])(a, axis=case['axis'])
+        return {'shape': list(r.shape), 'values': _flat(r), 'input_unchanged': _same(_flat(a), vals)}
+
+    def coq(self, case, obs):
+        nd = len(case['shape'])
+        axis = case['axis'] if case['axis'] >= 0 else nd - 1
+        return ('{| hr_itemsize := %s; hr_k := %s; hr_shape := %s; hr_axis := %s; hr_runs := %s; hr_obs_shape := %s; hr_obs := %s |}' % (
+            C.coq_n(np.dtype(case['dtype']).itemsize), C.coq_nat(case['k']), C.coq_list(case['shape'], C.coq_nat), C.coq_nat(axis),
+            C.coq_list(case['runs'], lambda p: C.coq_pair(C.coq_n(p[0]), C.coq_nat(p[1]))),
+            C.coq_list(obs.get('shape', []), C.coq_nat), C.coq_list(obs.get('values', []), C.coq_n)))
+
+    def oracle(self, case, obs):
+        if 'raised' in obs:
+            return f'HammingWeight(nb_words={case["k"]}, {case["dtype"]}) shape={case["shape"]} raised {obs["raised"]}: {obs["msg"]}'
+        if not obs['input_unchanged']:
+            return 'input array modified'
+        return None
+
+    def _max_group(self, case):
+        # largest possible group weight of the case (upper bound from the word weights; evidence only)
+        return case['k'] * max(bin(v).count('1') for v, _ in case['runs'])
+
+    def nontrivial(self, case, obs):
+        return self._max_group(case) >= 255
+
+    def features(self, case, obs):
+        m = self._max_group(case)
+        return {'dtype': case['dtype'], 'k': '2-16' if case['k'] <= 16 else ('17-64' if case['k'] <= 64 else ('65-257' if case['k'] <= 257 else '>=1024')),
+                'max_group_weight': '<255' if m < 255 else ('255-65534' if m < 65535 else '>=65535')}
+
+    def tags(self, case, obs):
+        return ['hw_large_groups', 'hw_large_groups_' + case['dtype']]
+
+    def sample(self, case, obs):
+        return {'case': dict(case, runs=case['runs'][:8]), 'observed': {k: (v[:8] if isinstance(v, list) else v) for k, v in obs.items()}}
+
+    def shrink(self, case):
+        if case.get('lay'):
+            yield dict(case, lay=None)
+
+
+class DiscLongKind(Kind):
+    name = 'disc_long_lanes'
+    header = HDR2
+    case_type = 'disc_rle_case'
+    check_fn = 'disc_rle_check'
+    explain_fn = 'disc_rle_expected'
+    shard = 8
+    rule = ('the five discriminants on lanes of length 255 / 256 / 257 / 1024 (and 127..129) along the first or the last axis of float32 / float64 '
+            'arrays: long runs of large integers (|v| <= 8191 in float32, <= 2^40 in float64: every partial sum exact, |nansum| and abssum up to '
+            '2^23 / 2^50), runs of NaN, isolated extremes at the first / last / block-boundary positions; run-length encoded input expanded inside '
+            'Coq; non-trivial = lane length >= 255')
+
+    def _lane(self, rng, L, big):
+        lane = []
+        while len(lane) < L:
+            n = min(L - len(lane), rng.choice([1, 1, 2, 7, 8, 9, 31, 64, 127, 128, 129, 300]))
+            u = rng.random()
+            if u < 0.12:
+                v = float('nan')
+            elif u < 0.6:
+                v = float(rng.choice([big, big, -big, big - 1, -(big - 1)]))
+            else:
+                v = float(rng.randint(-big, big))
+            lane += [v] * n
+        if rng.random() < 0.5:      # an isolated extreme at a boundary position
+            pos = rng.choice([0, L - 1, 127, 128, min(L - 1, 255), min(L - 1, 256), L // 2])
+            lane[min(pos, L - 1)] = float(rng.choice([big + 1, -(big + 1)]))
+        return lane
+
+    def gen(self, rng, tier):
+        quick = tier == 'quick'
+        for rep in range(1 if quick else 8):
+            for op, _ in OPS:
+                for L in (255, 256, 257, 1024) + (() if quick else (127, 128, 129, 512)):
+                    for dt in ('float32', 'float64'):
+                        big = 8190 if dt == 'float32' else rng.choice([8190, 1 << 30, (1 << 40) - 1])
+                        nl = rng.choice([1, 2, 3])
+                        lanes = [self._lane(rng, L, big) for _ in range(nl)]
+                        shape, axis, flat = _orient(rng, lanes, rng.choice([0, 1]))
+                        lay = _rand_layout(rng, shape, rng.choice(['F', 'strided', 'neg'])) if rng.random() < 0.3 else None
+                        yield {'op': op, 'dtype': dt, 'shape': shape, 'axis': axis, 'runs': _rle(flat), 'lay': lay}
+
+    def run(self, case):
+        vals = _unrle(case['runs'])
+        a = _build(vals, case['dtype'], case['shape'], case.get('lay'))
+        r = _invoke(None, dict(case, m='disc'), a)
+        return {'shape': list(r.shape), 'values': _fflat(r), 'input_unchanged': _same(_fflat(a), vals)}
+
+    def coq(self, case, obs):
+        nd = len(case['shape'])
+        axis = case['axis'] if case['axis'] >= 0 else nd - 1
+        return '{| dr_op := %s; dr_shape := %s; dr_axis := %s; dr_runs := %s; dr_obs_shape := %s; dr_obs := %s |}' % (
+            dict(OPS)[case['op']], C.coq_list(case['shape'], C.coq_nat), C.coq_nat(axis),
+            C.coq_list(case['runs'], lambda p: C.coq_pair(core.float_to_coq(p[0]), C.coq_nat(p[1]))),
+            C.coq_list(obs.get('shape', []), C.coq_nat), C.coq_list(obs.get('values', []), core.float_to_coq))
+
+    def oracle(self, case, obs):
+        if 'raised' in obs:
+            return f'{case["op"]} on {case["dtype"]} shape={case["shape"]} axis={case["axis"]} raised {obs["raised"]}: {obs["msg"]}'
+        if not obs['input_unchanged']:
+            return 'input array modified'
+        return None
+
+    def nontrivial(self, case, obs):
+        return max(case['shape']) >= 255
+
+    def features(self, case, obs):
+        return {'op': case['op'], 'dtype': case['dtype'], 'lane': max(case['shape'])}
+
+    def tags(self, case, obs):
+        return ['disc_long_lanes', 'disc_long_' + case['op']]
+
+    def sample(self, case, obs):
+        return {'case': dict(case, runs=case['runs'][:8]), 'observed': {k: (v[:8] if isinstance(v, list) else v) for k, v in obs.items()}}
+
+    def shrink(self, case):
+        if case.get('lay'):
+            yield dict(case, lay=None)
+
+
+KINDS = [HwKind(), MonoKind(), ValueKind(), DiscKind(), LayoutKind(), SeqKind(), HwLargeKind(), DiscLongKind()]
